@@ -41,6 +41,16 @@ def oracle_script(stmts_text, script):
             and sc.check_pieces(script, stmts_text, pieces[:-1]) is None
         return {'input': [ord(c) for c in script], 'kind': 'k_statements', 'observed': why,
                 'written': len(stmts_text), 'returned': len(pieces), 'extra_comment_only': extra}
+    # the same script handed over as a text stream (split() accepts file-like objects): same statements
+    import io
+    try:
+        pieces2 = sqlparse.split(io.StringIO(script))
+    except Exception:  # noqa
+        return None
+    if pieces2 != pieces:
+        why2 = sc.check_pieces(script, stmts_text, pieces2) or 'pieces differ from those of the str form'
+        return {'input': [ord(c) for c in script], 'kind': 'k_statements', 'form': 'stream', 'observed': 'as a text stream: ' + why2,
+                'written': len(stmts_text), 'returned': len(pieces2), 'extra_comment_only': False}
     return None
 
 
@@ -223,5 +233,9 @@ def replay(payload):
     if f.get('kind') == 'region_replacement':
         r = oracle_regions(s, ''.join(map(chr, f['variant'])))
         return {'fails': bool(r) and r != 'skip', 'observed': r}
-    n = len(sqlparse.split(s))
+    if f.get('form') == 'stream':
+        import io
+        n = len(sqlparse.split(io.StringIO(s)))
+    else:
+        n = len(sqlparse.split(s))
     return {'fails': n != f.get('written'), 'observed': f'{n} statements, {f.get("written")} written'}
